@@ -89,6 +89,13 @@ pub const MIMES: &[&str] = &[
     "text/html;level=1",
     "multipart/mixed; boundary=inner",
     "application/json",
+    // valid media types outside the handful of common top-level types
+    "chemical/x-pdb",
+    "x-world/x-vrml",
+    "example/demo",
+    "haptics/ivs",
+    "font/woff2",
+    "x-a/b.c+d",
 ];
 
 fn file_data(f: &FileSpec, prev_boundary: &str) -> Vec<u8> {
